@@ -30,7 +30,7 @@ RULE = (
     "evaluation = one moment entry; distinct non-trivial = distinct (grid, type, order row, centre, "
     "function) entry whose reference is not identically determined by a zero function value"
 )
-ASSUMPTIONS = ["float64 direct sums as reference, tolerance 1e-11 relative to sum |w f basis|"]
+ASSUMPTIONS = ["float64 direct sums as reference, tolerance 1e-11 relative to sum |w f| |r-R|^power (an upper bound of sum |w f basis|)"]
 
 
 # ------------------------------------------------------------------------------ reference orders
@@ -95,7 +95,9 @@ def ref_moments(points, weights, f, centres, maxorder, kind):
             else:
                 basis = r ** o[0] * sol[harm.row_of(o[1], o[2])]
             mom[k, c] = np.sum(weights * f * basis)
-            sc[k, c] = np.sum(np.abs(weights * f * basis))
+            # natural scale: |basis| <= |r - R|^(total power) for monomials and (solid) harmonics
+            power = int(np.sum(o)) if kind == "cartesian" else (o[0] if kind != "pure-radial" else o[0] + o[1])
+            sc[k, c] = np.sum(np.abs(weights * f) * r**power)
     return mom, orders, sc
 
 
@@ -169,7 +171,7 @@ def _case(arg):
                         res.violation(f"{kind}:dim{dim}:orders-not-horton-order",
                                       f"returned order list differs from the documented Horton order "
                                       f"(got {np.asarray(orders).tolist()[:6]}..., expected {rord.tolist()[:6]}...)", c2)
-                tol = 1e-11 * (sc + 1e-300) + 1e-14
+                tol = 1e-11 * sc + 1e-300
                 bad = np.abs(got - ref) > tol
                 res.nontrivial(n=int(np.count_nonzero(sc > 0)))
                 if np.any(bad):
